@@ -186,22 +186,20 @@ def _tup(p):
 
 
 def primary(o):
-    """primary state through public accessors only, as exactly comparable data"""
+    """point-like primary state through public accessors only, as exactly
+    comparable data (dyadic lattice + lattice moves = exact float arithmetic).
+    Direction-like state (Line, Plane, the direction of a HalfLine) is compared
+    by denotation with same(): an implementation may legitimately keep another
+    support point or a rescaled direction."""
     n = type(o).__name__
     if n == "Point":
         return ("Point", _tup(o))
-    if n == "Line":
-        sv, dv = o.parametric()
-        return ("Line", _tup(sv), _tup(dv))
-    if n == "Plane":
-        p, nn = o.point_normal()
-        return ("Plane", _tup(p), _tup(nn))
     if n == "Segment":
         a, b = o.parametric()
-        return ("Segment", _tup(a), _tup(b))
+        return ("Segment", frozenset([_tup(a), _tup(b)]))
     if n == "HalfLine":
         a, d = o.parametric()
-        return ("HalfLine", _tup(a), _tup(d))
+        return ("HalfLine", _tup(a))
     if n == "ConvexPolygon":
         return ("ConvexPolygon", frozenset(_tup(p) for p in o.points))
     if n == "ConvexPolyhedron":
@@ -213,14 +211,10 @@ def primary(o):
     return (n,)
 
 
-def primary_equal(a, b):
-    """exact equality of primary state; a plane's unit normal (a computed
-    quantity) within 1e-12, sign included"""
+def primary_equal(a, b, oa, ob):
     if isinstance(a, Raised) or isinstance(b, Raised):
         return False
-    if a[0] == "Plane" and b[0] == "Plane":
-        return a[1] == b[1] and all(abs(x - y) <= 1e-12 for x, y in zip(a[2], b[2]))
-    return a == b
+    return a == b and same(oa, ob)
 
 
 # ------------------------------------------------------------------ execution
@@ -263,15 +257,11 @@ def _observe_side(ctx, step, side, obj, spec, t_obj, probes, base_measures):
     ptypes = [p["spec"]["t"] for p in probes]
     # I1 primary state
     px, pf = call(primary, obj), call(primary, Fw)
-    gf = spec.get("form") == "GF"
-    if gf:
-        ok1 = same(obj, Fw)
-    else:
-        ok1 = primary_equal(px, pf)
+    ok1 = primary_equal(px, pf, obj, Fw)
     ctx.count("I1_checks")
     if not ok1:
-        F2 = call(build, spec_t, 1)
-        if isinstance(F2, Raised) or (not gf and not primary_equal(call(primary, call(build, spec_t, 2)), pf)):
+        F2 = call(build, spec_t, 2)
+        if isinstance(F2, Raised) or not primary_equal(call(primary, F2), pf, F2, Fw):
             ctx.count("ill_conditioned")
         else:
             _vio(ctx, step, "I1", spec, side, "primary:state", None, "differs", {"got": repr(px)[:600], "want": repr(pf)[:600]})
